@@ -481,6 +481,11 @@ def check_C16(tier, seed):
     cases = [c for c in vmrun.run_scenarios(scns) if 'harness_error' not in c]
     engine.judge_cases(rep, cases, devs, what='failing program')
     _base_exceptions(rep, cases)
+    # the budget exhausted inside a lambda that earlier calls left in the names mapping, again and again (3-4 call histories)
+    scns = families.closure_sessions(seed + 21, 200 if quick else 2000, more_calls=True)
+    cases = [c for c in vmrun.run_scenarios(scns) if 'harness_error' not in c]
+    engine.judge_cases(rep, cases, devs, what='closure history')
+    _base_exceptions(rep, cases)
     # the same faulty text submitted repeatedly to long-lived parsers (plain and caching): SQSession says it fails every time
     _session_component(rep, seed + 77, quick, {'outcome.accepted', 'outcome.class'},
                        'a text the specification rejects with ParserError was accepted / failed with another class')
